@@ -490,12 +490,18 @@ def r3_monotone_test(ctx):
         isinstance(s, (ast.Break, ast.Return)) for s in n.body)]
     Rsm = Resolver(f)
     import re as _re
-    t2_ = norm(brk2[0].test) if brk2 else ""
-    t2_ = _re.sub(r"len\((\w+)\)", r"\1.size", t2_)
-    ok = bool(brk2) and any(_re.fullmatch(pat, t2_) for pat in (
-        r"np\.unique\((\w+)\)\.size == \1\.size",
-        r"(\w+)\.size == np\.unique\(\1\)\.size",
-        r"len\(np\.unique\((\w+)\)\) == \1\.size"))
+    ok = False
+    if brk2:
+        arrs = {norm(c.args[0]) for c in ast.walk(brk2[0].test)
+                if isinstance(c, ast.Call) and call_name(c) == "np.unique"
+                and c.args and isinstance(c.args[0], ast.Name)}
+        for t2_ in (norm(brk2[0].test),
+                    Resolver(f, keep=arrs).text(brk2[0].test)):
+            t2_ = _re.sub(r"len\((\w+)\)", r"\1.size", t2_)
+            ok = ok or any(_re.fullmatch(pat, t2_) for pat in (
+                r"np\.unique\((\w+)\)\.size == \1\.size",
+                r"(\w+)\.size == np\.unique\(\1\)\.size",
+                r"len\(np\.unique\((\w+)\)\) == \1\.size"))
     ctx.check(ok, lp2, "strictness loop ends only when all values differ",
               "ties are no longer removed before returning (monotone but "
               "not strictly)")
